@@ -66,11 +66,15 @@ def state_case(rng):
     st = ["pc = 0;", "Stat = STAT_AOK;"]
     inject = []
     expect_banks = {}
-    for li, lo in zip(ins, outs):
+    if nb >= 2 and rng.random() < 0.3:
+        outs[1] = outs[0]            # two banks sharing an output letter (and stall_X / bubble_X): both must be shown
+    ctl = {}
+    for bi, (li, lo) in enumerate(zip(ins, outs)):
         regs = []
+        tag = "s" if (bi == 1 and outs[0] == outs[1]) else ""
         for j in range(rng.choice([1, 1, 2, 3, 5, 9, 14])):
             w = rng.choice([1, 4, 8, 13, 32, 64, 65, 100, 128])
-            name = rng.choice(["r%d" % j, "reg%d" % j, "n" + "a" * rng.randint(1, 12) + str(j), "v_" + "x" * rng.randint(20, 68) + str(j), "a_b_%d" % j])
+            name = tag + rng.choice(["r%d" % j, "reg%d" % j, "n" + "a" * rng.randint(1, 12) + str(j), "v_" + "x" * rng.randint(20, 68) + str(j), "a_b_%d" % j])
             regs.append((name, w))
         st.append("register %s%s { %s }" % (li, lo, " ".join("%s : %d = 0;" % (n, w) for n, w in regs)))
         for n, w in regs:
@@ -80,9 +84,11 @@ def state_case(rng):
             v = rng.choice([0, (1 << w) - 1, rng.getrandbits(w)])
             inject.append("v%s_%s=%x/%d" % (lo, n, v, w))
             vals.append((n, v))
-        stall, bubble = rng.choice([(0, 0), (1, 0), (0, 1), (1, 1)])
-        inject.append("vstall_%s=%x/1" % (lo, stall))
-        inject.append("vbubble_%s=%x/1" % (lo, bubble))
+        if lo not in ctl:
+            ctl[lo] = rng.choice([(0, 0), (1, 0), (0, 1), (1, 1)])
+            inject.append("vstall_%s=%x/1" % (lo, ctl[lo][0]))
+            inject.append("vbubble_%s=%x/1" % (lo, ctl[lo][1]))
+        stall, bubble = ctl[lo]
         expect_banks[li + lo] = ["B" if bubble else "S" if stall else "N", vals]
     regs = [rng.choice([0, rng.getrandbits(64), (1 << 64) - 1, rng.getrandbits(8)]) for _ in range(15)] + [0]
     for i, v in enumerate(regs[:15]):
@@ -153,7 +159,7 @@ def check(report, tier, seed):
         kinds["banks_%d" % len(banks)] += 1
     report.coverage["evaluations"] = len(cases)
     report.coverage["distinct_nontrivial"] = len(set(" ".join(c["inject"]) for c in cases.values()))
-    report.coverage["rule"] = ("machine states injected through hooks: 15 registers (0, 2^64-1, random), 0-3 banks with 1-14 registers of widths 1..128 and names "
+    report.coverage["rule"] = ("machine states injected through hooks: 15 registers (0, 2^64-1, random), 0-3 banks (two of them sharing an output letter in 3 of 10 multi-bank cases) with 1-14 registers of widths 1..128 and names "
                                "up to 70 characters (forcing wraps), all stall/bubble states, memory sets (singletons at every residue, pairs 1/15/16/17/k rows "
                                "apart, dense runs, around 2^28 and 2^32, up to 2^64-1, random sparse); dump text equal to the model's AND read back by an "
                                "independent parser into exactly the injected state")
